@@ -22,6 +22,8 @@ use uuid::Uuid;
 use self::server::Server;
 
 pub mod server;
+#[cfg(iwe_verif)]
+pub mod verif_hooks;
 
 #[derive(Debug, PartialEq, Clone, Copy)]
 pub enum LspClient {
@@ -105,6 +107,8 @@ impl Router {
             Message::Request(req) => {
                 let request = req;
                 let self_clone = self.clone();
+                #[cfg(iwe_verif)]
+                let self_clone = verif_hooks::Held::new(self_clone, &request.id);
                 let _ = std::thread::spawn(move || {
                     let id = request.id.clone();
                     // a panicking handler must not leave the request unanswered
@@ -136,6 +140,9 @@ impl Router {
     }
 
     fn on_notification(&mut self, notification: Notification) -> bool {
+        #[cfg(iwe_verif)]
+        let _verif = verif_hooks::note(&notification.method);
+
         if notification.method == "exit" {
             return true;
         }
@@ -158,7 +165,13 @@ impl Router {
     }
 
     fn on_request(&self, request: Request) -> bool {
+        #[cfg(iwe_verif)]
+        verif_hooks::at(verif_hooks::Point::Start, &request.id);
+
         if request.method == "shutdown" {
+            #[cfg(iwe_verif)]
+            verif_hooks::at(verif_hooks::Point::Respond, &request.id);
+
             self.respond(Response {
                 id: request.id.clone(),
                 result: Some(serde_json::Value::Null),
@@ -171,6 +184,9 @@ impl Router {
         if request.method.eq("workspace/executeCommand") {
             let params = ExecuteCommandParams::deserialize(request.params).unwrap();
             let result = self.server.handle_workspace_command(params);
+
+            #[cfg(iwe_verif)]
+            verif_hooks::at(verif_hooks::Point::Respond, &request.id);
 
             self.send(Message::Request(Request {
                 id: Uuid::new_v4().to_string().into(),
@@ -236,6 +252,9 @@ impl Router {
         };
 
         // schedule update
+
+        #[cfg(iwe_verif)]
+        verif_hooks::at(verif_hooks::Point::Respond, &request.id);
 
         match response {
             Ok(value) => self.respond(Response {
